@@ -73,6 +73,10 @@ pub enum Case {
         /// readable round after round), polled with zero timeouts on a peer that reads at full speed
         #[serde(default)]
         small_frames: usize,
+        /// `Terminal::position()` is called this many times while typed keys are still unread;
+        /// up to three more keys arrive right behind the terminal's reply, in the same write
+        #[serde(default)]
+        positions: u8,
     },
     /// reports, keys and mouse sequences (printed by the C04 protocol printer) typed into the pty in
     /// batches of arbitrary size while output is pending: the events must come out as printed
@@ -428,8 +432,10 @@ fn check_input_case(
     slow: bool,
     seed: u64,
     small_frames: usize,
+    positions: u8,
     ctx: &mut Ctx,
 ) -> Result<(), Fail> {
+    let mut positions_left = positions;
     let drain = if small_frames > 0 {
         Drain::Fast
     } else if slow {
@@ -472,6 +478,23 @@ fn check_input_case(
             if term.frames_pending() > 0 {
                 pending_while_input += 1;
             }
+        }
+        if positions_left > 0 && sent < keys.len() && rng.chance(1, 2) {
+            // the application asks for the cursor position while the keys typed above are unread;
+            // a few more keys arrive right behind the terminal's answer (same write as the DA1 reply)
+            positions_left -= 1;
+            let extra = &keys[sent..(sent + 3).min(keys.len())];
+            *session.peer.shared.after_da1.lock().unwrap() = extra.to_vec();
+            sent += extra.len();
+            match term.position() {
+                Ok(pos) => ensure!(
+                    pos == surf_n_term::Position::new(2, 3),
+                    "position:wrong",
+                    "the terminal answered ESC[3;4R, position() returned {pos:?}"
+                ),
+                Err(e) => fail!("input:poll-error", "position() failed while input was arriving: {e:?}"),
+            }
+            ctx.feat("input.position-calls-with-unread-input");
         }
         if winch_raised < winch && rng.chance(1, 2) {
             session.pty.resize(24 + winch_raised as u16, 80);
@@ -1027,6 +1050,7 @@ impl Prop for C17 {
                     slow: rng.bool(),
                     seed: rng.next_u64(),
                     small_frames,
+                    positions: *rng.pick(&[0u8, 0, 1, 3]),
                 }
             }
             9 => {
@@ -1085,8 +1109,8 @@ impl Prop for C17 {
             Case::Wake { wakers, timeouts, inject, delay_us, pending_kb, seed } => {
                 check_wake_case(wakers, timeouts, *inject, *delay_us, *pending_kb, *seed, ctx)
             }
-            Case::Input { keys, batch, pending_kb, winch, slow, seed, small_frames } => {
-                check_input_case(keys, *batch, *pending_kb, *winch, *slow, *seed, *small_frames, ctx)
+            Case::Input { keys, batch, pending_kb, winch, slow, seed, small_frames, positions } => {
+                check_input_case(keys, *batch, *pending_kb, *winch, *slow, *seed, *small_frames, *positions, ctx)
             }
             Case::Events { items, batches, pending_kb, slow, seed } => {
                 check_events_case(items, batches, *pending_kb, *slow, *seed, ctx)
